@@ -51,8 +51,8 @@ fn desugar_body(body: Vec<BodyItem>, eq_bound: bool) -> Vec<BodyItem> {
             BodyItem::Atom(a) => {
                 let mut here: HashSet<Var> = HashSet::new(); // variables bound by this clause
                 let mut args = vec![];
-                let mut eq_conds = vec![];
-                let mut pat_conds = vec![];
+                // (one list, in argument order: a test may mention a variable bound by an earlier pattern of the clause)
+                let mut eq_conds: Vec<Cond> = vec![];
                 for arg in a.args {
                     match arg {
                         Arg::Var(v) => {
@@ -78,12 +78,11 @@ fn desugar_body(body: Vec<BodyItem>, eq_bound: bool) -> Vec<BodyItem> {
                             eq_conds.push(Cond::Eq(Expr::Var(g), e));
                             args.push(Arg::Var(g));
                         }
-                        Arg::PatBind(v) | Arg::PatLat(v) => { let g = fresh; fresh += 1; pat_conds.push(Cond::IfLetBind(v, g)); here.insert(v); args.push(Arg::Var(g)); }
-                        Arg::PatConst(c) => { let g = fresh; fresh += 1; pat_conds.push(Cond::IfLetConst(g, c)); args.push(Arg::Var(g)); }
+                        Arg::PatBind(v) | Arg::PatLat(v) => { let g = fresh; fresh += 1; eq_conds.push(Cond::IfLetBind(v, g)); here.insert(v); args.push(Arg::Var(g)); }
+                        Arg::PatConst(c) => { let g = fresh; fresh += 1; eq_conds.push(Cond::IfLetConst(g, c)); args.push(Arg::Var(g)); }
                     }
                 }
                 let mut conds = eq_conds;
-                conds.extend(pat_conds);
                 conds.extend(a.conds);
                 for c in &conds { if let Cond::Let(v, _) | Cond::IfLetHalf(v, _) | Cond::IfLetBind(v, _) = c { bound.insert(*v); } }
                 bound.extend(here);
